@@ -350,8 +350,18 @@ func TestVerif_C30(t *testing.T) {
 		}
 		return
 	}
-	bound := vmc.Pick(r, 2, 3)
-	r.Info["deviation_bound"] = bound
+	// deviation bound: 2; thorough: 3 for the shapes with at most two threads and three calls
+	boundFor := func(sc c30Scenario) int {
+		ops := 0
+		for _, t := range sc.Threads {
+			ops += len(t)
+		}
+		if r.Thorough() && len(sc.Threads) <= 2 && ops <= 3 {
+			return 3
+		}
+		return 2
+	}
+	r.Info["deviation_bound"] = map[string]int{"small_shapes": boundFor(c30Scenario{}), "other_shapes": 2}
 	completed := 0
 	for idx, sc := range c30Scenarios(r) {
 		if idx%r.Shards != r.Shard {
@@ -371,7 +381,7 @@ func TestVerif_C30(t *testing.T) {
 		st := vmc.Explore(r, func(c *vmc.Chooser) {
 			w, out := c30Run(sc, c)
 			c30Check(r, sc, w, out, c.Choices())
-		}, vmc.DFSOpts{Bound: bound})
+		}, vmc.DFSOpts{Bound: boundFor(sc)})
 		r.Shards, r.Shard = shards, shard
 		r.Add("evaluations", st.Executions)
 		r.Add("states", st.Executions)
